@@ -244,11 +244,25 @@ class Roots:
                         okv = ("agg", "adt", "std::result::Result::Ok", ((0, phi([none, some])),))
                         return self.with_captures(inner[4][1]).roots(okv, path)
                 return self.roots(v[4][0], path)
+            if re.search(r"(core|std)::bool::(<impl bool>::)?then(_some)?$", cs) and len(v[4]) == 2:
+                # cond.then(|| x) / cond.then_some(x)  ==  if cond { Some(x) } else { None }
+                none = ("agg", "adt", "std::option::Option::None", ())
+                if cs.endswith("then_some"):
+                    return self.roots(phi([none, ("agg", "adt", "std::option::Option::Some", ((0, v[4][1]),))]), path)
+                if v[4][1][0] == "agg" and v[4][1][1] == "closure":
+                    cf = self.P.fn(v[4][1][2])
+                    ex = [x for x in exit_sites(self.P, cf)] if cf is not None and cf.body is not None else []
+                    if len(ex) == 1:
+                        some = ("agg", "adt", "std::option::Option::Some", ((0, ex[0][3]),))
+                        return self.with_captures(v[4][1]).roots(phi([none, some]), path)
             if cs.endswith("option::Option::unwrap_or") and len(v[4]) == 2:
                 return {"or(%s;%s)%s" % ("|".join(sorted(self.roots(v[4][0], (("v", "Some"), ("f", 0))))),
                                           "|".join(sorted(self.roots(v[4][1]))), path_str(path))}
             if cs.endswith("option::Option::unwrap_or_else") and len(v[4]) == 2:
                 alt = self.closure_return_roots(v[4][1])
+                if alt is None and v[4][1][0] == "const" and v[4][1][1] == "fn":
+                    # a plain function used as the fallback (e.g. `unwrap_or_else(Uint128::zero)`): its call result
+                    alt = {"C:%s@%s:bb%d" % (generic_path(v[4][1][2]), v[1], v[2])}
                 if alt is not None:
                     return {"or(%s;%s)%s" % ("|".join(sorted(self.roots(v[4][0], (("v", "Some"), ("f", 0))))),
                                               "|".join(sorted(alt)), path_str(path))}
